@@ -183,3 +183,69 @@ Fixpoint run (bottlenose : bool) (a : account) (ops : list op) : list (account *
   end.
 Definition final (bottlenose : bool) (a : account) (ops : list op) : account :=
   fold_left (fun a o => fst (step bottlenose a o)) ops a.
+
+(* ---------- several accounts: the world of one transaction ---------- *)
+(* address -> account. An address without an entry is an account that does not exist yet: a
+   preallocated (virtual) account is created by its first call with the blueprint's defaults
+   (AccountBlueprint::create_virtual: deposit rule Accept, no preferences, no depositors, no vaults),
+   which is `fresh`; a failed first call leaves it non-existent. *)
+Definition world := list (N * account).
+Definition wget (w : world) (a : N) : account := match lookup a w with Some x => x | None => fresh end.
+Definition wset (w : world) (a : N) (x : account) : world := set_key a x w.
+
+(* Account::withdraw of each bucket in turn (vault must exist and hold the amount) *)
+Fixpoint take_buckets (a : account) (bs : list bucket) : option account :=
+  match bs with
+  | [] => Some a
+  | (r, amt) :: rest =>
+      match lookup r (a_vaults a) with
+      | Some b => if (0 <=? amt) && (amt <=? b)
+                  then take_buckets (with_vaults a (set_key r (b - amt) (a_vaults a))) rest
+                  else None
+      | None => None
+      end
+  end.
+
+(* the transactions of the harness *)
+Inductive wop :=
+  (* src withdraws the buckets, calls the guarded deposit of tgt, and deposits whatever comes back *)
+  | WTry (src tgt : N) (v : variant) (bs : list bucket) (c : ctx)
+  (* src hands the buckets to tgt's owner, who deposits them with deposit_batch *)
+  | WDeposit (src tgt : N) (bs : list bucket)
+  (* tgt's owner withdraws and the resources are deposited into dst *)
+  | WWithdraw (tgt : N) (r : res) (amt : Z) (dst : N)
+  (* tgt's owner changes the deposit configuration *)
+  | WConfig (tgt : N) (o : op).
+
+Definition is_config (o : op) : bool :=
+  match o with OSetDefault _ | OSetPref _ _ | ORemovePref _ | OAddAuth _ | ORemoveAuth _ => true | _ => false end.
+
+Definition wstep (bottlenose : bool) (w : world) (o : wop) : world * outcome :=
+  match o with
+  | WTry src tgt v bs c =>
+      if N.eqb src tgt then (w, Failed EOther) else
+      match take_buckets (wget w src) bs with
+      | None => (w, Failed EVault)
+      | Some s' =>
+          match try_deposit bottlenose (wget w tgt) v bs c with
+          | (t', Deposited) => (wset (wset w src s') tgt t', Deposited)
+          | (_, Refunded rej) => (wset w src (deposit_batch s' bs), Refunded rej)   (* buckets go home *)
+          | (_, Failed e) => (w, Failed e)
+          end
+      end
+  | WDeposit src tgt bs =>
+      if N.eqb src tgt then (w, Failed EOther) else
+      match take_buckets (wget w src) bs with
+      | None => (w, Failed EVault)
+      | Some s' => (wset (wset w src s') tgt (deposit_batch (wget w tgt) bs), Deposited)
+      end
+  | WWithdraw tgt r amt dst =>
+      if N.eqb tgt dst then (w, Failed EOther) else
+      match step bottlenose (wget w tgt) (OWithdraw r amt) with
+      | (t', Deposited) => (wset (wset w tgt t') dst (deposit (wget w dst) (r, amt)), Deposited)
+      | (_, out) => (w, out)
+      end
+  | WConfig tgt o =>
+      if is_config o then (wset w tgt (fst (step bottlenose (wget w tgt) o)), Deposited)
+      else (w, Failed EOther)
+  end.
